@@ -557,6 +557,14 @@ impl VSession {
         Ok(h.0)
     }
 
+    /// delivery-count, link-credit and drain flag of a sending link of this facade session
+    pub fn sender_link_counters(&self, output_handle: u32) -> Option<(u32, u32, bool)> {
+        self.senders.get(&output_handle).map(|l| {
+            let i = l.flow_state.lock.read();
+            (i.delivery_count, i.link_credit, i.drain)
+        })
+    }
+
     pub fn allocate_receiver_link(&mut self, name: &str, second: bool) -> Result<u32, String> {
         let (tx, rx) = mpsc::channel(1 << 16);
         let flow_state = Arc::new(LinkFlowState::receiver(LinkFlowStateInner {
